@@ -14,7 +14,7 @@ import (
 // curl -X GET http://localhost:8888/api/destinations/all
 func (app *App) handleDestinationShowAll(w http.ResponseWriter, r *http.Request) {
 
-	output, err := json.Marshal(app.Websocket.Rules)
+	output, err := json.Marshal(app.Websocket.GetRules())
 	if err != nil {
 		http.Error(w, err.Error(), 500)
 		return
@@ -31,7 +31,7 @@ func (app *App) handleDestinationShow(w http.ResponseWriter, r *http.Request) {
 	vars := mux.Vars(r)
 	id := vars["id"]
 
-	output, err := json.Marshal(app.Websocket.Rules[id])
+	output, err := json.Marshal(app.Websocket.GetRule(id))
 	if err != nil {
 		http.Error(w, err.Error(), 500)
 		return
